@@ -150,6 +150,27 @@ fn run(op: &str, args: &[Sx]) -> Option<Sx> {
             let r2 = history(&mut ctx, &post);
             sx::l(vec![sx::s("ok"), probes(&ctx, &names, &ps), sx::l(r2)])
         }
+        // (evalx image "expr" ...) -> ("ok" (result per expr)) | ("err" msg): every expression on a clone of the
+        // loaded context (one shared time budget; expressions beyond it answer ("s"))
+        "evalx" => {
+            let Some(img) = args.first().and_then(Sx::as_bytes) else { return Some(sx::bad()) };
+            let Some(exprs) = args[1..].iter().map(text).collect::<Option<Vec<_>>>() else { return Some(sx::bad()) };
+            let mut ctx = new_ctx();
+            let mut rd = img;
+            if let Err(e) = ctx.deserialize_variables(&mut rd) {
+                return Some(sx::l(vec![sx::s("err"), Sx::S(e.into_bytes())]));
+            }
+            let end = Instant::now() + Duration::from_millis(6000);
+            let rs = exprs.iter().map(|e| {
+                let left = end.saturating_duration_since(Instant::now()).as_millis() as u64;
+                if left == 0 { return sx::l(vec![sx::s("s")]); }
+                let mut c = ctx.clone();
+                eval1(e, &mut c, left.min(40))
+            }).collect();
+            // the context must still be writable after all that
+            let saved = save(&ctx).is_ok();
+            sx::l(vec![sx::s("ok"), sx::l(rs), sx::a(u8::from(saved))])
+        }
         // (sizes) -> (size_of::<usize>() isize::MAX (five container element sizes))
         "sizes" => sx::l(vec![sx::a(std::mem::size_of::<usize>()), sx::a(isize::MAX as u128),
                               sx::l(fend_core::verif_hooks::ser::container_elem_sizes().iter().map(|&x| sx::a(x)).collect())]),
